@@ -352,7 +352,8 @@ def data_grid(arr, spacing=None, medium_index=None, illum_wavelen=None,
 
     if np.isscalar(spacing):
         spacing = np.repeat(spacing, 2)
-    if np.isscalar(z) and (len(arr) > 1 or arr.ndim == 2):
+    n_extra = 0 if extra_dims is None else len(extra_dims)
+    if np.isscalar(z) and (len(arr) > 1 or arr.ndim == 2 + n_extra):
         arr = np.expand_dims(arr, axis=0)
     coords = make_coords(arr.shape, spacing, z)
     if extra_dims is None:
